@@ -84,6 +84,12 @@ def h_wrap(pbc, natoms):
                 ob.append((f'cell vector {i} (non-periodic) only stretched', band(*[eq(c, 0, 1e4) for c in cr], le(sum(V[i][j] * V[i][j] for j in range(3)), sum(nV[i][j] * V[i][j] for j in range(3)), 1e4))))
         ob.append(('other per-atom properties untouched', band(alleq(s.atoms.stuff, extra), [int(t) for t in s.atoms.atype] == list(range(1, natoms + 1)))))
         ob.append(('pbc untouched', tuple(bool(x) for x in s.pbc) == tuple(pbc)))
+        # the wrapped system is self-consistent: its own cell (whatever it caches) reports the same relative coordinates as the
+        # cell vectors and origin it shows: s_code . det == numerators of Cramer's rule
+        sp = s.atoms_prop('pos', scale=True) if not all(pbc) else None       # only where the cell can have been enlarged (and its cached quantities must follow)
+        for k in range(min(natoms, 2) if sp is not None else 0):
+            num, den = rel([[nV[i][j] for j in range(3)] for i in range(3)], [nO[j] for j in range(3)], [newpos[k, j] for j in range(3)])
+            ob.append((f'atom {k}: box-relative coordinates reported by the wrapped system agree with its cell vectors and origin', band(*[eq(sp[k, i] * den, num[i], 1e5) for i in range(3)])))
         return ob
     return fn
 
